@@ -196,7 +196,7 @@ def run_cases(outdir):
     def one(f):
         return f, sh(["coqc", "-Q", COQ, "Verif", f], cwd=outdir, timeout=3000)
 
-    with ThreadPoolExecutor(max_workers=8) as ex:
+    with ThreadPoolExecutor(max_workers=14) as ex:
         for f, (rc, out) in ex.map(one, files):
             if rc != 0 or "R = " not in out:
                 ok = False
@@ -283,7 +283,7 @@ def main(argv):
         corr_broken = "harness does not build against /repo's working tree:\n" + out[-3000:]
     else:
         # 3. run on the implementation
-        cmd = [binp, "-seed", str(a.seed), "-tier", a.tier, "-out", outdir]
+        cmd = [binp] + cfg.get("harness_args", []) + ["-seed", str(a.seed), "-tier", a.tier, "-out", outdir]
         if a.replay:
             cmd += ["-replay", os.path.abspath(a.replay)]
         rc, out = sh(cmd, cwd=HARNESS, env=GOENV, timeout=cfg.get("harness_timeout", 1500) * (6 if a.tier == "thorough" else 1))
